@@ -50,8 +50,8 @@ def gen(tape: Tape, tier: str) -> dict:
         reindexes=(None, None, False, True),
         dtypes=("f8", "i8", "f4"),
         label_kinds=("int", "float", "str", "str"),
-        max_n=24,
-        max_groups=6,
+        max_n=36 if tier == "thorough" else 24,
+        max_groups=8 if tier == "thorough" else 6,
         max_ndim=2,
         by_dask_p=0.1,
         expected_modes=("none", "none", "exact", "superset", "subset"),
